@@ -667,4 +667,9 @@ func (g *Gen) heapInitFacts(locName, s string) {
 }
 
 // sfAxiom is the definitional axiom of a spec function with a quantified body.
-type sfAxiom struct{ name, text string }
+type sfAxiom struct {
+	name  string   // spec function symbol (trigger "(name "), or empty
+	trigs []string // other trigger substrings
+	text  string
+	light bool     // also part of the light proof attempt
+}
